@@ -1,1 +1,384 @@
-"""(rules to be added)"""
+"""Engine LOWER - effects of the source front end (DESIGN 5.8)."""
+from __future__ import annotations
+
+import ast
+from typing import Dict, List, Optional, Set
+
+from .. import astutil as A
+from ..domains import chain_arms
+from ..model import AnalysisError, FunctionInfo
+from ..report import Ob, bad, ok, unresolved
+from . import rule
+from .common import find_class_chains, method_calls
+from .disp import BACK, FRONT, _codegen, _dispatcher
+
+# Python's evaluation order of the child fields of the expression classes
+EVAL_ORDER = {
+    "Compare": ["left", "comparators"],
+    "BinOp": ["left", "right"],
+    "Call": ["func", "args", "keywords"],
+    "Subscript": ["value", "slice"],
+    "Attribute": ["value"],
+    "UnaryOp": ["operand"],
+    "BoolOp": ["values"],
+    "IfExp": ["test", "body", "orelse"],
+    "Tuple": ["elts"],
+    "List": ["elts"],
+    "Set": ["elts"],
+    "Dict": ["keys", "values"],
+    "Starred": ["value"],
+    "JoinedStr": ["values"],
+    "FormattedValue": ["value"],
+    "NamedExpr": ["value"],
+    "Slice": ["lower", "upper", "step"],
+}
+# fields holding several operands that are evaluated left to right
+MULTI = {"comparators", "args", "keywords", "elts", "values", "keys"}
+
+
+def _emitters(ctx) -> Set[str]:
+    """methods of the front end that may append to the current block or open blocks, transitively"""
+    front = ctx.prog.cls(FRONT)
+    direct = set()
+    for m in front.methods.values():
+        txt = A.unparse(m.node)
+        if ".instructions.append(" in txt or "self.add_block(" in txt:
+            direct.add(m.name)
+    changed = True
+    while changed:
+        changed = False
+        for m in front.methods.values():
+            if m.name in direct:
+                continue
+            for c in A.walk_no_nested(m.node):
+                if isinstance(c, ast.Call) and isinstance(c.func, ast.Attribute) and isinstance(c.func.value, ast.Name) and c.func.value.id == "self" and c.func.attr in direct:
+                    direct.add(m.name)
+                    changed = True
+                    break
+    return direct
+
+
+def _handle_expression(ctx) -> FunctionInfo:
+    m = ctx.prog.cls(FRONT).find_method("handle_expression")
+    if m is None:
+        raise AnalysisError("AST2SCFGTransformer.handle_expression not found")
+    return m
+
+
+def _processed_fields(arm_body: List[ast.stmt], subj: str, emitters: Set[str]) -> Dict[str, ast.AST]:
+    """fields of the subject node that the arm rebuilds from an emitting call"""
+    out: Dict[str, ast.AST] = {}
+    for s in A.walk_no_nested(ast.Module(arm_body, [])):
+        if isinstance(s, ast.Assign):
+            for t in s.targets:
+                if isinstance(t, ast.Attribute) and A.unparse(t.value) == subj:
+                    if any(isinstance(c, ast.Call) and isinstance(c.func, ast.Attribute) and c.func.attr in emitters for c in ast.walk(s.value)):
+                        out[t.attr] = s
+    return out
+
+
+@rule("LOWER-1", 3, "hoisting the statements of a sub-expression must not move its evaluation before a sibling that Python evaluates earlier")
+def lower1(ctx) -> List[Ob]:
+    out: List[Ob] = []
+    he = _handle_expression(ctx)
+    em = _emitters(ctx)
+    params = [p.arg for p in he.params if p.arg != "self"]
+    chains = find_class_chains(he.node, params[0])
+    if not chains:
+        raise AnalysisError("handle_expression: no class dispatch found")
+    subj, arms = chains[0]
+    for arm in arms:
+        if arm.test is None:
+            continue
+        classes = [n.attr for n in ast.walk(arm.test) if isinstance(n, ast.Attribute) and isinstance(n.value, ast.Name) and n.value.id == "ast"]
+        for cls in classes:
+            if cls == "BoolOp":
+                continue  # LOWER-2
+            order = EVAL_ORDER.get(cls)
+            proc = _processed_fields(arm.body, subj, em)
+            key = f"arm ast.{cls}"
+            where = ctx.where(he, arm.node)
+            if not proc:
+                out.append(ok("LOWER-1", he.qualname, key, where, "no child is lowered through an emitting function", nontrivial=False))
+                continue
+            if order is None:
+                out.append(unresolved("LOWER-1", he.qualname, key, where, f"evaluation order of ast.{cls} unknown to the checker"))
+                continue
+            hazards = []
+            for f in proc:
+                if f not in order:
+                    continue
+                earlier = order[: order.index(f)]
+                if earlier:
+                    hazards.append(f"'{f}' is hoisted although '{earlier[0]}' is evaluated before it and stays in place")
+                elif f in MULTI:
+                    hazards.append(f"the operands in '{f}' are hoisted one after the other while earlier operands stay in place")
+                elif len(order) > 1 and any(g in proc for g in order[order.index(f) + 1:]):
+                    pass
+            if len([f for f in proc if f in order]) > 1 or any(f in MULTI for f in proc):
+                pass
+            if hazards:
+                out.append(bad("LOWER-1", he.qualname, key, where, f"ast.{cls}: " + "; ".join(hazards) + ": statements emitted for a later operand run before an earlier operand is evaluated", hazards))
+            else:
+                out.append(ok("LOWER-1", he.qualname, key, where, f"only the first-evaluated child of ast.{cls} is lowered"))
+    return out
+
+
+@rule("LOWER-2", 2, "an operand of and/or that Python evaluates conditionally is lowered only inside the block guarded by the preceding operand")
+def lower2(ctx) -> List[Ob]:
+    out: List[Ob] = []
+    he = _handle_expression(ctx)
+    em = _emitters(ctx)
+    params = [p.arg for p in he.params if p.arg != "self"]
+    subj, arms = find_class_chains(he.node, params[0])[0]
+    boolarm = next((a for a in arms if a.test is not None and "BoolOp" in A.unparse(a.test)), None)
+    if boolarm is None:
+        raise AnalysisError("handle_expression: no BoolOp arm")
+    # every call of an emitting function inside the arm whose argument reaches values[i>=1]
+    for sub in chain_arms(boolarm.body[0]) if boolarm.body and isinstance(boolarm.body[0], ast.If) else []:
+        label = A.unparse(sub.test) if sub.test is not None else "else"
+        key = f"BoolOp arm ({label})"
+        where = ctx.where(he, sub.node)
+        early = []
+        for c in A.walk_no_nested(ast.Module(sub.body, [])):
+            if isinstance(c, ast.Call) and isinstance(c.func, ast.Attribute) and c.func.attr in em and c.func.attr != "handle_bool_op":
+                for a in c.args:
+                    txt = A.unparse(a)
+                    comp = next((x for x in A.ancestors(c) if isinstance(x, (ast.ListComp, ast.GeneratorExp))), None)
+                    if comp is not None and any(f"{subj}.values" == A.unparse(g.iter) for g in comp.generators):
+                        early.append(f"{A.unparse(comp)[:60]} lowers every operand, including the conditional ones, before the guarded block exists")
+                    elif f"{subj}.values[" in txt and not txt.endswith("[0]") and ".op" not in txt:
+                        early.append(f"{A.unparse(c)[:60]} lowers a conditional operand early")
+        if early:
+            out.append(bad("LOWER-2", he.qualname, key, where, early[0] + ": an operand that must run only if the first one allows it runs unconditionally and first", early))
+        else:
+            out.append(ok("LOWER-2", he.qualname, key, where, "conditional operands are handed unprocessed to handle_bool_op"))
+    # inside handle_bool_op: values[1] is lowered after the guarded block was opened
+    hb = ctx.prog.cls(FRONT).find_method("handle_bool_op")
+    if hb is None:
+        raise AnalysisError("handle_bool_op not found")
+    cfg = ctx.cfg(hb)
+    for c in A.walk_no_nested(hb.node):
+        if isinstance(c, ast.Call) and isinstance(c.func, ast.Attribute) and c.func.attr in em and c.args and ".values[1]" in A.unparse(c.args[0]):
+            key = A.alpha_key(A.enclosing_stmt(c))
+            where = ctx.where(hb, c)
+            n = cfg.node_of(c)
+            opens = [z for z in cfg.nodes if z.stmt is not None and any(isinstance(k, ast.Call) and isinstance(k.func, ast.Attribute) and k.func.attr == "add_block" for k in z.walk())]
+            if any(cfg.dominates(z, n) for z in opens):
+                out.append(ok("LOWER-2", hb.qualname, key, where, "second operand lowered after the guarded block was opened"))
+            else:
+                out.append(bad("LOWER-2", hb.qualname, key, where, "the second operand is lowered before the block that guards it is opened: it is evaluated unconditionally"))
+    return out
+
+
+@rule("LOWER-3", 2, "the loop stack brackets exactly the loop body: pushed before the body, popped before the else clause")
+def lower3(ctx) -> List[Ob]:
+    out: List[Ob] = []
+    front = ctx.prog.cls(FRONT)
+    for mname in ("handle_while", "handle_for"):
+        m = front.find_method(mname)
+        if m is None:
+            raise AnalysisError(f"{FRONT}.{mname} not found")
+        cfg = ctx.cfg(m)
+        node_p = [p.arg for p in m.params if p.arg != "self"][0]
+        push = [cfg.node_of(c) for c in method_calls(m.node, "append") if "loop_stack" in A.unparse(c.func.value)]
+        pop = [cfg.node_of(c) for c in method_calls(m.node, "pop") if "loop_stack" in A.unparse(c.func.value)]
+        body = [cfg.node_of(c) for c in method_calls(m.node, "codegen") if c.args and A.unparse(c.args[0]) == f"{node_p}.body"]
+        orelse = [cfg.node_of(c) for c in method_calls(m.node, "codegen") if c.args and A.unparse(c.args[0]) == f"{node_p}.orelse"]
+        key = f"{mname}: loop stack bracket"
+        where = ctx.where(m)
+        if len(push) != 1 or len(pop) != 1 or len(body) != 1 or len(orelse) != 1:
+            out.append(bad("LOWER-3", m.qualname, key, where, f"expected one push, one pop, one body lowering and one else lowering; found {len(push)}/{len(pop)}/{len(body)}/{len(orelse)}"))
+            continue
+        pu, po, bo, el = push[0], pop[0], body[0], orelse[0]
+        probs = []
+        if not cfg.dominates(pu, bo):
+            probs.append("the body is lowered without the loop being on the stack: break/continue bind to an outer loop or to nothing")
+        if po in cfg.reachable(pu) and bo not in cfg.reachable(pu, avoid=lambda z: z is po):
+            probs.append("the stack is popped before the body is lowered")
+        if not cfg.dominates(po, el):
+            probs.append("the else clause is lowered while the loop is still on the stack: a break in the else clause binds to this loop instead of the enclosing one")
+        if cfg.exit in cfg.reachable(pu, avoid=lambda z: z is po):
+            probs.append("there is a path on which the loop is never popped")
+        # the sealing of the body's last block happens before the pop (it needs the loop's indices)
+        seals = [cfg.node_of(c) for c in method_calls(m.node, "seal_block")]
+        between = [s for s in seals if s in cfg.reachable(bo, avoid=lambda z: z is po)]
+        if not between:
+            probs.append("the last block of the body is sealed after the loop was popped: its continue/break targets belong to the outer loop")
+        if probs:
+            out.append(bad("LOWER-3", m.qualname, key, where, "; ".join(probs)))
+        else:
+            out.append(ok("LOWER-3", m.qualname, key, where, "push -> body -> seal -> pop -> else on every path"))
+    return out
+
+
+@rule("LOWER-4", 6, "only pass/break/continue are pruned as no-ops; every simple statement is placed in a block exactly once; blocks get one or two successors")
+def lower4(ctx) -> List[Ob]:
+    out: List[Ob] = []
+    prog = ctx.prog
+    astcfg = prog.cls("ASTCFG")
+    pn = astcfg.find_method("prune_noops")
+    if pn is None:
+        raise AnalysisError("ASTCFG.prune_noops not found")
+    allowed = {"Pass", "Break", "Continue"}
+    tuples = [s for s in A.walk_no_nested(pn.node) if isinstance(s, ast.Assign) and isinstance(s.value, ast.Tuple) and all((A.dotted(e) or "").startswith("ast.") for e in s.value.elts)]
+    used = set()
+    for c in A.walk_no_nested(pn.node):
+        if isinstance(c, ast.Call) and isinstance(c.func, ast.Name) and c.func.id == "isinstance" and len(c.args) == 2:
+            a = c.args[1]
+            if isinstance(a, ast.Name):
+                for s in tuples:
+                    if s.targets[0].id == a.id:
+                        used |= {(A.dotted(e) or "").split(".")[-1] for e in s.value.elts}
+            elif isinstance(a, ast.Tuple):
+                used |= {(A.dotted(e) or "").split(".")[-1] for e in a.elts}
+            else:
+                d = A.dotted(a)
+                if d:
+                    used.add(d.split(".")[-1])
+    key = "classes pruned as no-ops"
+    if not used:
+        out.append(unresolved("LOWER-4", pn.qualname, key, ctx.where(pn), "cannot read which node classes are pruned"))
+    elif used <= allowed:
+        out.append(ok("LOWER-4", pn.qualname, key, ctx.where(pn), f"pruned classes {sorted(used)}"))
+    else:
+        out.append(bad("LOWER-4", pn.qualname, key, ctx.where(pn), f"statements of class {sorted(used - allowed)} are dropped as no-ops: reachable statements disappear from the graph"))
+    # simple-statement arms of the dispatcher append exactly once on every path
+    disp_fn, subj, arms, hier = _dispatcher(ctx)
+    cfg = ctx.cfg(disp_fn)
+    for arm in arms:
+        if arm.test is None:
+            continue
+        appends = [c for c in method_calls(ast.Module(arm.body, []), "append") if isinstance(c.func.value, ast.Attribute) and c.func.value.attr == "instructions"]
+        handlers = [c for c in A.walk_no_nested(ast.Module(arm.body, [])) if isinstance(c, ast.Call) and isinstance(c.func, ast.Attribute) and c.func.attr.startswith("handle_") and c.func.attr != "handle_expression"]
+        label = A.unparse(arm.test)[:60]
+        key = f"dispatcher arm {A.alpha_key(arm.test)[:80]}"
+        where = ctx.where(disp_fn, arm.node)
+        if handlers and not appends:
+            out.append(ok("LOWER-4", disp_fn.qualname, key, where, f"compound statement delegated to {handlers[0].func.attr}", nontrivial=False))
+            continue
+        good = len(appends) == 1 and appends[0].args and A.unparse(appends[0].args[0]) == subj
+        if good:
+            an = cfg.node_of(appends[0])
+            first = cfg.node_of(arm.body[0])
+            # on every path through the arm the append is executed
+            good = first is an or (cfg.exit not in cfg.reachable(first, avoid=lambda z: z is an, include_src=True))
+        if good:
+            out.append(ok("LOWER-4", disp_fn.qualname, key, where, "the statement is appended to the current block exactly once"))
+        else:
+            out.append(bad("LOWER-4", disp_fn.qualname, key, where, f"arm ({label}) does not append its statement exactly once on every path ({len(appends)} append(s)): the statement is dropped or duplicated"))
+    # arity census of set_jump_targets
+    front = prog.cls(FRONT)
+    n1 = n2 = 0
+    for m in list(front.methods.values()) + list(prog.cls("WritableASTBlock").methods.values()):
+        for c in method_calls(m.node, "set_jump_targets"):
+            k = len(c.args)
+            star = any(isinstance(a, ast.Starred) for a in c.args)
+            key = "set_jump_targets " + A.alpha_key(c)
+            if star or k not in (1, 2):
+                out.append(bad("LOWER-4", m.qualname, key, ctx.where(m, c), f"a block is given {k if not star else 'a variable number of'} successors: input blocks must have one or two ordered successors"))
+            else:
+                n1 += k == 1
+                n2 += k == 2
+    out.append(ok("LOWER-4", FRONT, "set_jump_targets arity census", ctx.where(front.methods["__init__"]) if "__init__" in front.methods else "", f"{n1} call sites with one successor, {n2} with two"))
+    ctx.stats["LOWER-4.arity"] = {"one": n1, "two": n2}
+    return out
+
+
+def _norm_pred(e: ast.AST, subj: str) -> str:
+    class R(ast.NodeTransformer):
+        def visit_Name(self, n):
+            return ast.Name(id="B", ctx=n.ctx) if n.id == subj else n
+
+    return " ".join(A.unparse(R().visit(ast.parse(A.unparse(e), mode="eval").body)).split())
+
+
+@rule("LOWER-5", 2, "the linear walks of the code generator skip exactly the regions that are emitted from their head block (branch regions)")
+def lower5(ctx) -> List[Ob]:
+    out: List[Ob] = []
+    back = ctx.prog.cls(BACK)
+    tr = back.find_method("transform")
+    cg = _codegen(ctx)
+    preds = []
+    # (1) top-level loop: `if <pred>: continue`
+    for lp in [n for n in A.walk_no_nested(tr.node) if isinstance(n, ast.For)]:
+        if "concealed_region_view" not in A.unparse(lp.iter):
+            continue
+        names = [x.id for x in ast.walk(lp.target) if isinstance(x, ast.Name)]
+        for s in lp.body:
+            if isinstance(s, ast.If) and s.body and isinstance(s.body[0], ast.Continue):
+                preds.append(("transform", _norm_pred(s.test, names[-1]), ctx.where(tr, s)))
+    # (2) per-region view: comprehension with `if not (<pred>)`
+    for f in ctx.prog.functions:
+        if f.parent_fn is cg or f is cg:
+            for comp in [n for n in A.walk_no_nested(f.node) if isinstance(n, (ast.GeneratorExp, ast.ListComp))]:
+                for g in comp.generators:
+                    if "concealed_region_view" in A.unparse(g.iter) and isinstance(g.target, ast.Name):
+                        for cond in g.ifs:
+                            if isinstance(cond, ast.UnaryOp) and isinstance(cond.op, ast.Not):
+                                preds.append((f.qualname, _norm_pred(cond.operand, g.target.id), ctx.where(f, comp)))
+                            else:
+                                preds.append((f.qualname, "not (" + _norm_pred(cond, g.target.id) + ")", ctx.where(f, comp)))
+    if len(preds) < 2:
+        raise AnalysisError(f"expected two linear walks over the region view, found {len(preds)}")
+    ref = "type(B) is RegionBlock and B.kind == 'branch'"
+    for who, p, where in preds:
+        key = f"skip predicate of {who}"
+        if p == preds[0][1] and ("'branch'" in p and "RegionBlock" in p):
+            out.append(ok("LOWER-5", who, key, where, f"skips {p}"))
+        elif p != preds[0][1]:
+            out.append(bad("LOWER-5", who, key, where, f"this walk skips '{p}' but the other skips '{preds[0][1]}': a region is emitted twice or not at all"))
+        else:
+            out.append(bad("LOWER-5", who, key, where, f"the walks skip '{p}', not the branch regions ({ref}): branch regions are emitted from their head *and* linearly, or other regions are dropped"))
+    return out
+
+
+@rule("LOWER-6", 2, "pruning never removes the entry block")
+def lower6(ctx) -> List[Ob]:
+    out: List[Ob] = []
+    prog = ctx.prog
+    front = prog.cls(FRONT)
+    init = front.find_method("__init__")
+    if init is None:
+        raise AnalysisError("front end __init__ not found")
+    first = [c for c in method_calls(init.node, "add_block") if c.args and isinstance(c.args[0], ast.Constant)]
+    if not first:
+        raise AnalysisError("cannot find the genesis block (first add_block(<const>))")
+    entry = str(first[0].args[0].value)
+    astcfg = prog.cls("ASTCFG")
+    for m in astcfg.methods.values():
+        cfg = ctx.cfg(m)
+        dels = [c for c in method_calls(m.node, "pop") if A.unparse(c.func.value) == "self"]
+        dels += [d for d in A.walk_no_nested(m.node) if isinstance(d, ast.Delete) and any(isinstance(t, ast.Subscript) and A.unparse(t.value) == "self" for t in d.targets)]
+        for d in dels:
+            key = f"{m.name}: " + A.alpha_key(A.enclosing_stmt(d) or d)
+            where = ctx.where(m, d)
+            dn = cfg.node_of(d)
+            kexpr = d.args[0] if isinstance(d, ast.Call) and d.args else None
+            kname = A.unparse(kexpr) if kexpr is not None else None
+            reason = None
+            # (a) explicit exclusion of the entry key that skips the deletion
+            for z in cfg.nodes:
+                if z.kind == "if" and kname and kname in A.unparse(z.stmt.test) and repr(entry) in A.unparse(z.stmt.test).replace('"', "'"):
+                    t = z.stmt.test
+                    eq = isinstance(t, ast.Compare) and isinstance(t.ops[0], ast.Eq)
+                    ne = isinstance(t, ast.Compare) and isinstance(t.ops[0], ast.NotEq)
+                    if eq and z.stmt.body and isinstance(z.stmt.body[-1], (ast.Continue, ast.Return)) and cfg.dominates(z, dn):
+                        reason = f"'{A.unparse(t)}' skips the entry before the deletion"
+                    if ne and any(a is z.stmt for a in A.ancestors(d)):
+                        reason = f"deletion only under '{A.unparse(t)}'"
+            # (b) deletion of what is not in a set seeded with the entry key
+            if reason is None:
+                for anc in A.ancestors(d):
+                    if isinstance(anc, ast.If) and isinstance(anc.test, ast.Compare) and isinstance(anc.test.ops[0], ast.NotIn):
+                        R = A.unparse(anc.test.comparators[0])
+                        # R grows from a work-list seeded with the entry
+                        seeds = [s for s in A.walk_no_nested(m.node) if isinstance(s, ast.Assign) and repr(entry) in A.unparse(s.value).replace('"', "'")]
+                        adds = [c for c in method_calls(m.node, "add") if A.unparse(c.func.value) == R]
+                        if seeds and adds:
+                            reason = f"only blocks outside '{R}' are deleted and '{R}' is the closure of a work-list seeded with the entry {entry!r}"
+            if reason:
+                out.append(ok("LOWER-6", m.qualname, key, where, reason))
+            else:
+                out.append(bad("LOWER-6", m.qualname, key, where, f"the deletion can remove the entry block {entry!r}: the graph is left without a block that has no predecessor (restructuring asserts in find_head)"))
+    return out
